@@ -29,7 +29,7 @@ def file_limit_cases(wd):
         p = os.path.join(d, "groupdesc_%d.c3d" % L)
         open(p, "wb").write(c3dref.encode(c, {}))
         paths.append(p); what.append("group_and_param_description_length=%d" % L)
-    for last in (65534, 65535):
+    for last in (32769, 32777, 65534, 65535):        # numbering that straddles / lies above 32767 (the words are unsigned)
         c = gen12.base_content(first=last - 9, nframes=10)
         p = os.path.join(d, "lastframe_%d.c3d" % last)
         open(p, "wb").write(c3dref.encode(c, {}))
@@ -98,6 +98,13 @@ def run(prop, tier):
             if v["prop"] in ("C04", "*"):
                 i = v.get("case", 0)
                 viols.append(dict(prop="C17", key="at_limit/file/" + what[i].split("=")[0] + "/" + v["key"].replace("/", "_"), detail=what[i] + ": " + v["detail"], case=i, files=[paths[i]]))
+        # ... and what was loaded must be what an independent decoder reads from the limit file (frame numbers up to 65535, full-length names...)
+        for i in range(len(paths)):
+            ci, diffs = F._c04_cross((i, os.path.join(out2, "gen2_%d.c3d" % i), os.path.join(out2, "gen2_%d.json" % i), paths[i]))
+            for key, detail in diffs or []:
+                if key == "HARNESS":
+                    raise C.Harness("file-limit cross-check failed on %s: %s" % (what[i], detail))
+                viols.append(dict(prop="C17", key="at_limit/file/" + what[i].split("=")[0] + "/" + key.replace("/", "_"), detail=what[i] + ": " + detail, case=i, files=[paths[i]]))
         fl_ok = sum(1 for c, l in R2.lines.get("RES", []) if " ok " in l)
         for c, l in R2.lines.get("RES", []):
             if " ok " not in l:
